@@ -26,6 +26,7 @@ func checkC06(c *an.Ctx) {
 	}
 	c.OK("C06.0", "runner roles", r.run.Pos(), "job walk in %s", an.Short(r.execute))
 	checkRunTable(c, "C06.1", map[string]bool{"order-task": true, "stop-on-failure": true, "complete-on-success": true})
+	freshRun(c, "C06.1")
 	runIsSynchronous(c, r, "C06.1")
 	compileNesting(c, r, "C06.2")
 	executeTable(c, r, "C06.3", false)
@@ -579,7 +580,27 @@ func executorErrorIdentity(c *an.Ctx, rule string) {
 	}
 	good := false
 	for _, ret := range an.Returns(ies) {
-		if call, ok := an.RetVal(ret, 0).(*ssa.Extract); ok {
+		rv0 := an.RetVal(ret, 0)
+		// (a named type for the status — a conversion that keeps width and sign — is the same number)
+		for {
+			var inner ssa.Value
+			switch x := rv0.(type) {
+			case *ssa.Convert:
+				inner = x.X
+			case *ssa.ChangeType:
+				inner = x.X
+			}
+			if inner == nil {
+				break
+			}
+			bo, ok1 := rv0.Type().Underlying().(*types.Basic)
+			bi, ok2 := inner.Type().Underlying().(*types.Basic)
+			if !ok1 || !ok2 || bo.Kind() != bi.Kind() {
+				break
+			}
+			rv0 = inner
+		}
+		if call, ok := rv0.(*ssa.Extract); ok {
 			if cc, ok := call.Tuple.(*ssa.Call); ok {
 				if c2, ok := an.IsCallTo(cc, "mvdan.cc/sh/v3/interp.IsExitStatus"); ok && an.SameValue(c2.Args[0], ies.Params[0]) {
 					good = true
